@@ -229,6 +229,21 @@ check("C04",
       "TLA+ reference codec (C04_Codec) model-checked for losslessness; TLC trace validation of token-level files and loaded containers (C04_Trace, C02_Build)",
       "DESIGN.md 6.4")
 
+check("C07",
+      "TLC checks theorems about the exact definitions (C07_Quantities over integers and gcd-normalised rationals) on four lattice meshes "
+      "x 36 motions: squared lengths scale with s^2, squared areas with s^4, volumes with s^3; angle / cotangent / defect surrogates are "
+      "invariant, unit normals rotate with the mesh, corner angles of lattice triangles sum to pi, angle defects sum to 2 pi chi. The real "
+      "functions (edge length / midpoint, face area / normal / barycentre / circumcentre, corner angle, cotangent, cotangent weight, vertex "
+      "normals x 3 weightings, angle defect x zero_border, degree, cell volume / barycentre, Euler characteristic, barycentre, total / mean "
+      "area, mean edge length, mean cell volume, six interpolation operators on a constant) run with every persistent / dense combination on "
+      "planar lattice grids (axis, diagonal, 3-4-5), box surfaces, a generic lattice triangle pair and Kuhn tetrahedra, on images under signed "
+      "permutation matrices, scales, translations and renumbering, repeatedly and after the mesh has been moved by geometry.transform; TLC "
+      "compares exact surrogates (squares, (component^2, sign), (cos^2, sign), value/pi) with the definitions on the CURRENT geometry.",
+      "Exact oracles only on integer lattice inputs; weightings that need irrational mixes are judged only where normals are coordinate axes "
+      "and angles multiples of pi/4. Four open known findings (stale cached attributes after a transform).",
+      "TLA+ exact definitions (C07_Quantities) with invariance theorems model-checked (C07_MC); TLC trace validation of exact surrogates (C07_Trace)",
+      "DESIGN.md 6.7")
+
 ALL = ["C%02d" % i for i in range(1, 21)]
 
 
